@@ -107,17 +107,22 @@ pub struct DriveOpts {
     /// which leaves unflushed data in buffers between API calls.
     pub handle_mix_pct: u64,
     pub max_handles: usize,
+    /// Start from this session (e.g. a synthesised foreign image) instead of a fresh file.
+    pub start: Option<Session>,
 }
 
 /// Runs one history.  Failures (monitor verdicts, owned divergences, panics) are
 /// recorded as findings in `rep` with the explicit step list as witness.
-pub fn drive(ctx: &Ctx, case: u64, rng: &mut Rng, rep: &mut Report, opts: DriveOpts, mon: &mut dyn Monitor) -> CaseInfo {
+pub fn drive(ctx: &Ctx, case: u64, rng: &mut Rng, rep: &mut Report, mut opts: DriveOpts, mon: &mut dyn Monitor) -> CaseInfo {
     let gen = Gen::new(opts.cfg.clone());
     let mut done: Vec<Step> = Vec::new();
     let mut info = CaseInfo { steps: Vec::new(), hash: fnv64_add(0xcbf29ce484222325, vname(opts.version).as_bytes()), saw_removal: false, saw_large: false, abandoned: false };
     let version = opts.version;
     let res = guard::catch(|| -> Result<(), Fail> {
-        let mut sess = Session::create(version, opts.bufsize).map_err(|e| ("create | ok | err".to_string(), format!("create failed: {e}")))?;
+        let mut sess = match opts.start.take() {
+            Some(s) => s,
+            None => Session::create(version, opts.bufsize).map_err(|e| ("create | ok | err".to_string(), format!("create failed: {e}")))?,
+        };
         let mut n = 0;
         while n < opts.max_steps {
             let steps = if opts.handle_mix_pct > 0 && rng.below(100) < opts.handle_mix_pct { handle_mix(rng, &sess, opts.max_handles) } else { gen.next(rng, &sess) };
@@ -232,7 +237,7 @@ pub fn run_c01(ctx: &Ctx, rep: &mut Report) {
         if rng.chance(1, 3) {
             cfg.max_size = 5000;
         }
-        let info = drive(ctx, case, rng, rep, DriveOpts { version, bufsize: None, max_steps, cfg, handle_mix_pct: 0, max_handles: 0 }, &mut DumpMonitor);
+        let info = drive(ctx, case, rng, rep, DriveOpts { version, bufsize: None, max_steps, cfg, handle_mix_pct: 0, max_handles: 0, start: None }, &mut DumpMonitor);
         if info.saw_removal && info.saw_large {
             rep.nontrivial(info.hash);
         }
@@ -364,7 +369,7 @@ pub fn run_c02(ctx: &Ctx, rep: &mut Report) {
         let bufsize = *rng.pick(&[None, None, Some(1024usize), Some(4096)]);
         let mut mon = ReopenMonitor { last_hdr: None, fork_pct: 15 };
         let mix = *rng.pick(&[0, 0, 25]);
-        let info = drive(ctx, case, rng, rep, DriveOpts { version, bufsize, max_steps, cfg, handle_mix_pct: mix, max_handles: 3 }, &mut mon);
+        let info = drive(ctx, case, rng, rep, DriveOpts { version, bufsize, max_steps, cfg, handle_mix_pct: mix, max_handles: 3, start: None }, &mut mon);
         if info.steps.len() >= 5 && !info.abandoned {
             rep.nontrivial(info.hash);
         }
@@ -464,7 +469,7 @@ pub fn run_c03(ctx: &Ctx, rep: &mut Report) {
         let bufsize = *rng.pick(&[None, Some(1024usize), Some(5000)]);
         let mut mon = RulesMonitor { every: 1, n: 0 };
         let mix = *rng.pick(&[0, 0, 25]);
-        let info = drive(ctx, case, rng, rep, DriveOpts { version, bufsize, max_steps, cfg, handle_mix_pct: mix, max_handles: 3 }, &mut mon);
+        let info = drive(ctx, case, rng, rep, DriveOpts { version, bufsize, max_steps, cfg, handle_mix_pct: mix, max_handles: 3, start: None }, &mut mon);
         if info.steps.len() >= 5 && info.saw_removal {
             rep.nontrivial(info.hash);
         }
